@@ -1,7 +1,7 @@
 """C17 Route actions, timeouts and the retry policy are applied exactly as configured.
    spec/router/RouteAction.tla       route actions (header mutations at route / virtual host / router level, prefix / regex /
                                      host rewrite, redirect, direct response) and the effective timeouts: declarative meaning
-                                     (Sem*) against the implementation-shaped evaluation (Impl*), 13 defect switches
+                                     (Sem*) against the implementation-shaped evaluation (Impl*), 14 defect switches
    spec/router/RouteActionRetry.tla  the retry decision table, budget, fresh host, never after the reply started; 7 defect switches
    spec/router/RouteActionTrace.tla, RouteActionRetryTrace.tla   TLC validates what the real code did.
    Binding: every case TLC enumerates is configured into an in-process MOSN (HTTP/1) through the router manager and one real
@@ -16,7 +16,7 @@ import lifecycle_common as lc
 LEVEL = "model_checking"
 
 FAMILIES = ("hdr", "path", "redir", "direct", "tmo")
-ACT_DEFECTS = ("VhostBeforeRoute", "RouterBeforeVhost", "AppendNoSeparator", "RemoveBeforeAdd", "RegexOverPrefix",
+ACT_DEFECTS = ("RewriteCaseSensitive", "VhostBeforeRoute", "RouterBeforeVhost", "AppendNoSeparator", "RemoveBeforeAdd", "RegexOverPrefix",
                "PrefixRewriteKeepsPrefix", "AutoHostOverHostRewrite", "AutoHostBeforeMutation", "RedirectKeepsPort",
                "RedirectDropsQuery", "RedirectDefault302", "HeaderOverProtocol", "TryNotDisabled")
 RETRY_DEFECTS = ("RetryOnOverflow", "RetryOnIgnored", "StatusListIgnored", "BudgetOffByOne", "BudgetIsNumRetries",
@@ -48,7 +48,7 @@ def act_signature(e, kind):
             what = "prefix_rewrite" if c.get("pr") else ("regex_rewrite" if c.get("rr") != "none" else "plain")
         else:
             what = "any"
-        return "C17:path:%s:rule=%s:%s" % (kind, c.get("rule"), what)
+        return "C17:path:%s:rule=%s:%s%s" % (kind, c.get("rule"), what, ":path-in-other-case" if c.get("ci") else "")
     if ev == "redir":
         if kind == "redirect-status":
             return "C17:redirect:%s:code=%s" % (kind, "default" if not c.get("code") else "configured")
@@ -263,7 +263,7 @@ def run(ctx):
     ctx.assumptions += [
         "HTTP/1 downstream and upstream, plain TCP (current scheme http); the protocol-supplied global timeout is bolt's frame timeout field (end to end through a bolt listener) and, at component level, the proxy_global_timeout / proxy_try_timeout variables given to parseProxyTimeout",
         "header values are plain strings (no %variable% formatters); regex_rewrite limited to the menu of RouteAction.tla, whose hand-written meaning is cross-checked against Go regexp by the driver",
-        "prefix_rewrite on regex rules, auto_host_rewrite (STRICT_DNS), redirect hosts with ports and a path rule matched case-insensitively are not exercised",
+        "prefix_rewrite on regex rules, auto_host_rewrite (STRICT_DNS) and redirect hosts with ports are not exercised",
         "fresh host: selection is re-run for every retry; observed as consecutive attempts never landing on the same host of a 4-host round-robin cluster with no other traffic",
         "the decision table is applied to the observed end of each attempt (hook us.recv/us.reset + scripted upstream log); timing is only used as a lower bound (a timeout never fires early)",
         "overflow is produced by filling the cluster's request breaker (max_requests=1) from the driver while the worker is held before the retry",
